@@ -753,8 +753,11 @@ func runLfs(c lfsCase) *halfOut {
 					raws = append(raws, rawViol{s.name, s.group, "read", fmt.Sprintf("returned sentinel content %q", mon80(string(b)))})
 				}
 			}
-			// effect oracle
-			{
+			// effect oracle. Under strace every syscall of this harness costs a ptrace round trip, the traced
+			// paths are a sample of what the untraced pool checks with the effect oracle anyway, and the
+			// deciding monitor here is strace itself: the tree is then only kept sane (checked every 64
+			// operations and silently rebuilt) so that a late discovery is not attributed to a wrong operation.
+			if !c.Strace {
 				out.Events["lfs-outside-tree-checks"]++
 				if !w.cheapCheck() {
 					d := w.fullDiff()
@@ -764,6 +767,9 @@ func runLfs(c lfsCase) *halfOut {
 					raws = append(raws, rawViol{s.name, s.group, "write", "the tree outside the base changed: " + d})
 					w.rebuild()
 				}
+			} else if markN%64 == 0 && !w.cheapCheck() {
+				out.Events["lfs-strace-mode-world-rebuilt"]++
+				w.rebuild()
 			}
 			if s.mutating && !w.baseClean() {
 				out.Events["lfs-base-resets"]++
@@ -780,7 +786,7 @@ func runLfs(c lfsCase) *halfOut {
 	}
 	// full comparison at the end of the case
 	out.Events["lfs-full-snapshot-checks"]++
-	if d := w.fullDiff(); d != "" {
+	if d := w.fullDiff(); d != "" && !c.Strace {
 		out.Viols = append(out.Viols, viol{Sig: "localfs-escape:unattributed", Detail: "full snapshot comparison at the end of the case: " + d, Path: "", Config: c.Base})
 		w.rebuild()
 	}
